@@ -10,6 +10,7 @@ import checks_hist
 import checks_domain
 import checks_numeric
 import checks_ma
+import checks_combine
 
 CHECKS = {
     "C02": (lambda ctx: checks_core.run_core(ctx, "pre"), "model_checking"),
@@ -21,6 +22,7 @@ CHECKS = {
     "C12": (checks_numeric.run, "model_checking"),
     "C15": (checks_ma.run_c15, "model_checking"),
     "C16": (checks_ma.run_c16, "model_checking"),
+    "C17": (checks_combine.run, "model_checking"),
     "C20": (checks_core.run_c20, "model_checking"),
     "C18": (checks_core.run_c18, "model_checking"),
     "C04": (checks_hist.run_c04, "model_checking"),
@@ -176,6 +178,16 @@ META["C16"] = {
     "text": "Each joint action is applied in several arrangements of its members and nops; TLC decides whether the members are "
             "applicable and commute and, if so, demands the state of the sequential application; inapplicable members must be "
             "refused unless allowed; exported joint trajectories and their re-parse are compared with the run."}
+META["C17"] = {
+    "engine": "M+V", "design_ref": "DESIGN.md section 6 (C17)",
+    "note": "The discovery order is forced through a Path subclass whose glob() yields the real matches in the chosen order (a "
+            "test double for the file system, not for the library). Conflicting declarations of one name in two files are not "
+            "generated.",
+    "technique": "TLC model checking that the union's vocabulary is order independent (skip-known-actions combiner refuted) + "
+                 "trace validation of locate_domains / export_combined_domain / combine_problems against Combine!UnionDomain",
+    "text": "Per-agent files are parsed one by one (the spec reads each), combined under a forced discovery order, exported and "
+            "re-parsed; TLC compares the combination with the union of its own readings and checks through digests that "
+            "previously parsed and freshly created domains are untouched; problems likewise, including duplicates."}
 NOT_YET = {}
 
 
